@@ -526,7 +526,8 @@ func (m *Manager) acquireTasks(envId uid.ID, taskDescriptors Descriptors) (err e
 
 			deployedTasks = make(DeploymentMap)
 
-			outcomeCh := make(chan ResourceOffersOutcome)
+			// buffered: the scheduler hands the outcome over without blocking, possibly before we wait for it below
+			outcomeCh := make(chan ResourceOffersOutcome, 1)
 			m.tasksToDeploy <- &ResourceOffersDeploymentRequest{
 				tasksToDeploy: tasksToRun,
 				envId:         envId,
